@@ -299,6 +299,10 @@ func (fl *File) Write(p []byte) (int, error) {
 			}
 			fl.rec(Event{Op: "Write", Name: fl.name, Data: data, Len: len(p), N: n, Fault: m})
 			return n, nil
+		case "full-error": // everything is written, and an error is reported with the full count
+			n, _ := fl.inner.Write(p)
+			fl.rec(Event{Op: "Write", Name: fl.name, Data: data, Len: len(p), N: n, Err: "injected", Fault: m})
+			return n, fl.fs.ierr("Write", fl.name)
 		case "short-error":
 			n := 0
 			if len(p) > 1 {
